@@ -334,10 +334,17 @@ class Model:
         # a getter that only derives a value from attributes which never change after construction is an attribute computed in
         # __init__ in disguise: written back as that assignment (the confirmed tree's shape), reads stay attribute reads
         self.materialised_properties = []
+        try:
+            with open(os.path.join(os.path.dirname(os.path.abspath(__file__)), "known_attributes.txt"), encoding="utf-8") as fh:
+                known_attrs = {l.strip() for l in fh if l.strip() and not l.startswith("#")}
+        except OSError:
+            known_attrs = set()
         for name in list(props):
             left = []
             for c, f in props[name]:
-                if self._materialise_property(c, f):
+                # only a name the confirmed tree already has as an attribute is written back as one (the rules know it by that name); a
+                # property under a new name is a helper: its body is written where it is read
+                if name in known_attrs and self._materialise_property(c, f):
                     self.materialised_properties.append(f"{c.name}.{name}")
                 else:
                     left.append((c, f))
